@@ -947,7 +947,178 @@ def section_frame(ctx) -> None:
     later(evaluate)
 
 
-SECTIONS = [section_utf7, section_parse, section_frame, section_server, section_stored, section_sieve]
+# ------------------------------------------------------------- several sessions
+# commands of the main session (it has selected the mailbox Work, 4 messages)
+MAIN_CMDS = [b'NOOP', b'CHECK', b'FETCH 1:* (FLAGS)', b'FETCH 2 (UID BODY.PEEK[HEADER])', b'UID FETCH 1:* (FLAGS)',
+             b'STORE 1 +FLAGS (\\Seen)', b'STORE 1:* -FLAGS.SILENT (\\Flagged)', b'UID STORE 1:* +FLAGS (kw)',
+             b'SEARCH ALL', b'SEARCH 1:* UNSEEN', b'UID SEARCH ALL', b'EXPUNGE', b'UID EXPUNGE 1:*',
+             b'COPY 1 Sent', b'UID COPY 1:* Sent', b'MOVE 1 Sent', b'STATUS Work (MESSAGES RECENT)',
+             b'APPEND Work {1+}\r\nx', b'IDLE\r\nDONE', b'CLOSE', b'SELECT Work', b'EXAMINE Work', b'LIST "" *']
+# what a second session does to the same mailbox in between
+MUTATIONS = {
+    'none': [],
+    'expunge_one': [b'STORE 2 +FLAGS.SILENT (\\Deleted)', b'EXPUNGE'],
+    'expunge_first': [b'STORE 1 +FLAGS.SILENT (\\Deleted)', b'EXPUNGE'],
+    'expunge_all': [b'STORE 1:* +FLAGS.SILENT (\\Deleted)', b'EXPUNGE'],
+    'store': [b'STORE 1:* +FLAGS (\\Flagged)'],
+    'append': [b'APPEND Work (\\Seen) {12+}\r\nSubject: n\r\n\r\n'],
+    'delete': [b'CLOSE', b'DELETE Work'],
+    'rename': [b'CLOSE', b'RENAME Work Work2'],
+    'delete_recreate': [b'CLOSE', b'DELETE Work', b'CREATE Work'],
+}
+DIRECT_AFTER = [b'NOOP', b'CHECK', b'FETCH 1:* (FLAGS)', b'EXPUNGE', b'CLOSE', b'IDLE\r\nDONE', b'SEARCH ALL', b'STORE 1 +FLAGS (x)']
+
+
+def multi_scenarios(rng, quick: bool) -> list[list[tuple[str, bytes]]]:
+    """Each scenario: steps ('main', command) / ('other', mutation name)."""
+    out = []
+    held_back = [c for c in MAIN_CMDS if c.split()[0] in (b'FETCH', b'STORE', b'SEARCH')]
+    # a change made by the other session, a command that holds EXPUNGE back,
+    # then directly a command that delivers it
+    for m0 in (['expunge_one', 'expunge_first', 'expunge_all', 'append', 'store'] if quick else list(MUTATIONS)):
+        for c1 in (held_back + [b'NOOP', b'UID FETCH 1:* (FLAGS)'] if quick else MAIN_CMDS):
+            for c2 in DIRECT_AFTER:
+                out.append([('other', m0.encode()), ('main', c1), ('main', c2)])
+    muts = list(MUTATIONS)
+    for _ in range(120 if quick else 1500):
+        steps = []
+        for _ in range(rng.choice([2, 3, 4])):
+            steps.append(('other', rng.choice(muts).encode()))
+            steps.append(('main', rng.choice(MAIN_CMDS)))
+        out.append(steps)
+    return out
+
+
+async def run_multi(ctx, scenarios, maildir: bool, hist) -> None:
+    from ..pymap_env import DictEnv, MaildirEnv
+    for steps in scenarios:
+        if too_many_hangs():
+            return
+        env = await (MaildirEnv('++').start() if maildir else DictEnv().start())
+        try:
+            main = D.keep(await env.login())
+            oth = D.keep(await env.login())
+            history = [('main', b'<login>'), ('other', b'<login>')]
+            n = [0]
+
+            async def do(conn, who, cmd, check=True):
+                n[0] += 1
+                data = b'%s%d ' % (who[:1].encode(), n[0]) + cmd + b'\r\n'
+                history.append((who, data))
+                o = await D.feed(conn, data)
+                ctx.count(('multi', maildir, who, cmd, len(history)))
+                hist[(who, (o.tagged[1].decode() if o.tagged else 'bye' if o.bye else 'none'))] += 1
+                if o.hang or o.stalled:
+                    _hangs[0] += 1
+                ok = monitor(ctx, 'multi', who, data, o, history=list(history)) if check else True
+                return ok, o
+            setup = [b'CREATE Work', b'CREATE Sent'] if maildir else [b'CREATE Work']
+            good = True
+            for cmd in setup:
+                await do(main, 'main', cmd, check=False)
+            for k in range(4):
+                await do(main, 'main', b'APPEND Work {23+}\r\nSubject: m%d\r\n\r\nbody %d\r\n' % (k, k), check=False)
+            for conn, who in ((main, 'main'), (oth, 'other')):
+                g1, _ = await do(conn, who, b'SELECT Work')
+                good = good and g1
+            for who, what in steps:
+                if not good:
+                    break
+                if who == 'other':
+                    for cmd in MUTATIONS[what.decode()]:
+                        if oth.closed:
+                            break
+                        g1, o = await do(oth, 'other', cmd)
+                        good = good and g1
+                    if what in (b'delete', b'rename', b'delete_recreate') and not oth.closed:
+                        await do(oth, 'other', b'SELECT Work', check=False)
+                else:
+                    if main.closed:
+                        break
+                    g1, o = await do(main, 'main', what)
+                    good = good and g1
+        finally:
+            env.close()
+
+
+def section_multi(ctx) -> None:
+    """Two sessions on one mailbox: the second changes it between the
+    commands of the first; every command of both is answered."""
+    scen = multi_scenarios(ctx.rng, ctx.quick)
+    hist = collections.Counter()
+    D.run_all(run_multi(ctx, scen, False, hist), timeout=1500)
+    hist_md = collections.Counter()
+    D.run_all(run_multi(ctx, scen[::9] if ctx.quick else scen[::4], True, hist_md), timeout=1500)
+    ctx.extra['multi_scenarios'] = len(scen)
+    ctx.extra['multi_outcomes'] = {'/'.join(k): v for k, v in sorted(hist.items())}
+    ctx.extra['multi_outcomes_maildir'] = {'/'.join(k): v for k, v in sorted(hist_md.items())}
+
+
+# --------------------------------------------------------------- mailbox names
+# modified UTF-7 payloads at the edges: unpaired high / low surrogate, reversed
+# pair, a proper pair, U+FFFE, U+FFFF, NUL, controls, '&' forms, non-zero
+# padding bits (refused), plain 8-bit
+EDGE_NAMES = [b'&2D0-', b'&3AA-', b'&3ADYPQ-', b'&2D3eAA-', b'a&2D0-b', b'&2D0-/x', b'&,,4-', b'&,,8-', b'&AAA-',
+              b'x&AAA-y', b'&AAE-', b'&AH8-', b'&AOk-', b'&AOkA6Q-', b'&-', b'a&-b', b'&AOl-', b'&2D0', b'&2D3eAA',
+              b'&AOkA-', b'\xe9', b'&IKw-&IKw-', b'&2D3eANg93gE-', b'&2D3YPQ-', b'INBOX/&2D0-', b'&2D0-*', b'&ZeVnLIqe-']
+NAME_CREATORS = [b'CREATE %s', b'SUBSCRIBE %s', b'RENAME Sent %s', b'COPY 1 %s', b'APPEND %s {1+}\r\nx']
+NAME_USERS = [b'LIST "" *', b'LSUB "" *', b'STATUS %s (MESSAGES UNSEEN)', b'LIST "" %s', b'SELECT %s', b'EXAMINE %s',
+              b'LIST "" "%%"', b'UNSUBSCRIBE %s', b'DELETE %s']
+
+
+async def run_names(ctx, maildir: bool, quick: bool, hist) -> None:
+    from ..pymap_env import DictEnv, MaildirEnv
+    for name in EDGE_NAMES:
+        q = b'"' + name + b'"'
+        for creator in (NAME_CREATORS[:3] if quick and maildir else NAME_CREATORS):
+            if too_many_hangs():
+                return
+            env = await (MaildirEnv('++').start() if maildir else DictEnv().start())
+            try:
+                a = D.keep(await env.login())
+                b = D.keep(await env.login())
+                history = [('main', b'<login>'), ('other', b'<login>')]
+                n = [0]
+
+                async def do(conn, who, cmd):
+                    n[0] += 1
+                    data = b'%s%d ' % (who[:1].encode(), n[0]) + cmd + b'\r\n'
+                    history.append((who, data))
+                    o = await D.feed(conn, data)
+                    ctx.count(('names', maildir, name, creator, cmd))
+                    hist[(who, (o.tagged[1].decode() if o.tagged else 'bye' if o.bye else 'none'))] += 1
+                    if o.hang or o.stalled:
+                        _hangs[0] += 1
+                    return monitor(ctx, 'names', who, data, o, history=list(history))
+                if maildir:
+                    await do(a, 'main', b'CREATE Sent')
+                    await do(a, 'main', b'APPEND INBOX {1+}\r\nx')
+                await do(a, 'main', b'SELECT INBOX')
+                good = await do(a, 'main', creator % q if b'%s' in creator else creator)
+                for user in NAME_USERS:
+                    if not good:
+                        break
+                    cmd = user % q if b'%s' in user else user
+                    for conn, who in ((a, 'main'), (b, 'other')):
+                        if conn.closed:
+                            good = False
+                            break
+                        good = await do(conn, who, cmd) and good
+            finally:
+                env.close()
+
+
+def section_names(ctx) -> None:
+    hist = collections.Counter()
+    D.run_all(run_names(ctx, False, ctx.quick, hist), timeout=1500)
+    hist_md = collections.Counter()
+    D.run_all(run_names(ctx, True, ctx.quick, hist_md), timeout=1500)
+    ctx.extra['names_outcomes'] = {'/'.join(k): v for k, v in sorted(hist.items())}
+    ctx.extra['names_outcomes_maildir'] = {'/'.join(k): v for k, v in sorted(hist_md.items())}
+
+
+SECTIONS = [section_utf7, section_parse, section_frame, section_server, section_multi, section_names,
+            section_stored, section_sieve]
 
 
 def run(ctx) -> None:
@@ -1014,7 +1185,7 @@ def replay(ctx, obj) -> int:
                 continue
             if st not in conns:
                 conns[st] = await (env.connect() if st == 'na' else env.login())
-            for unit in ([data] if st != 'other' else [ln + b'\r\n' for ln in data.split(b'\r\n') if ln]):
+            for unit in ([data] if not data.startswith(b'prN ') else [ln + b'\r\n' for ln in data.split(b'\r\n') if ln]):
                 o = await D.feed(conns[st], unit)
                 print(st, unit[:120], '->', 'STALLED' if o.stalled else o.out[-120:])
                 if o.stalled:
